@@ -2,13 +2,28 @@
 //!
 //! Oracle: the table in the property statement, as a function of the
 //! difference d = (b - a) mod 2^32 only.
+//!
+//! The table is applied to *every* way the type offers to compare two serial
+//! numbers (each operator and trait method, both operand orders, the mixed
+//! `Serial` / `u32` comparison, comparisons reached through `Option`, slices
+//! and tuples) and to every way of obtaining a `Serial` (constructors,
+//! conversions, text, `Arbitrary`, `add`, `State::inc`). Where the library
+//! moves a serial number over a transport - the server's query reader raced
+//! against notifications, the client adopting End of Data - the octets are
+//! delivered in pieces: see `c16_wire.rs`.
 
-use crate::core::{Ctx, Stage, Tier};
-use rpki::rtr::state::Serial;
+// Transport-level workloads live in `c16_wire.rs`; declared here so that
+// `lib.rs` needs no extra line.
+#[path = "c16_wire.rs"]
+mod wire;
+
+use crate::core::{hash2_of, Ctx, Stage, Tier};
+use rpki::rtr::state::{Serial, State};
 use serde_json::json;
 use std::cmp::Ordering;
 use std::collections::hash_map::DefaultHasher;
 use std::hash::{Hash, Hasher};
+use std::str::FromStr;
 
 const BASES: [u32; 8] = [
     0,
@@ -79,6 +94,220 @@ fn check_pair(a: u32, d: u32) -> Option<(&'static str, String)> {
     None
 }
 
+/// Every two-operand comparison the type offers, one bit each.
+const OP_NAMES: [&str; 18] = [
+    "eq",
+    "ne",
+    "lt",
+    "le",
+    "gt",
+    "ge",
+    "eq-reversed",
+    "ne-reversed",
+    "lt-reversed",
+    "le-reversed",
+    "gt-reversed",
+    "ge-reversed",
+    "eq-u32",
+    "ne-u32",
+    "eq-u32-reversed",
+    "ne-u32-reversed",
+    "trait-method-ne",
+    "trait-method-ge",
+];
+
+#[inline]
+fn ops_observed(sa: Serial, sb: Serial, a: u32, b: u32) -> u32 {
+    let mut m = 0u32;
+    m |= (sa == sb) as u32;
+    m |= ((sa != sb) as u32) << 1;
+    m |= ((sa < sb) as u32) << 2;
+    m |= ((sa <= sb) as u32) << 3;
+    m |= ((sa > sb) as u32) << 4;
+    m |= ((sa >= sb) as u32) << 5;
+    m |= ((sb == sa) as u32) << 6;
+    m |= ((sb != sa) as u32) << 7;
+    m |= ((sb < sa) as u32) << 8;
+    m |= ((sb <= sa) as u32) << 9;
+    m |= ((sb > sa) as u32) << 10;
+    m |= ((sb >= sa) as u32) << 11;
+    // Serial on the left, a bare integer on the right (`PartialEq<u32>`)
+    m |= ((sa == b) as u32) << 12;
+    m |= ((sa != b) as u32) << 13;
+    m |= ((sb == a) as u32) << 14;
+    m |= ((sb != a) as u32) << 15;
+    // the same through the trait methods by name (what generic code calls)
+    m |= (PartialEq::ne(&sa, &sb) as u32) << 16;
+    m |= (PartialOrd::ge(&sa, &sb) as u32) << 17;
+    m
+}
+
+/// What the statement's table says for each bit of `ops_observed`: equal at
+/// 0 only; less / greater inside the half ranges; every order comparison
+/// false and `!=` true at distance 2^31.
+#[inline]
+fn ops_expected(d: u32) -> u32 {
+    let eq = d == 0;
+    let lt = d != 0 && d < 0x8000_0000;
+    let gt = d > 0x8000_0000;
+    let mut m = 0u32;
+    m |= eq as u32;
+    m |= (!eq as u32) << 1;
+    m |= (lt as u32) << 2;
+    m |= ((lt || eq) as u32) << 3;
+    m |= (gt as u32) << 4;
+    m |= ((gt || eq) as u32) << 5;
+    // operands swapped: the difference is -d
+    m |= (eq as u32) << 6;
+    m |= (!eq as u32) << 7;
+    m |= (gt as u32) << 8;
+    m |= ((gt || eq) as u32) << 9;
+    m |= (lt as u32) << 10;
+    m |= ((lt || eq) as u32) << 11;
+    m |= (eq as u32) << 12;
+    m |= (!eq as u32) << 13;
+    m |= (eq as u32) << 14;
+    m |= (!eq as u32) << 15;
+    m |= (!eq as u32) << 16;
+    m |= ((gt || eq) as u32) << 17;
+    m
+}
+
+/// Checks the whole operator table for (a, a+d); a disagreement names the
+/// first operator that deviates.
+#[inline]
+fn check_ops(ctx: &mut Ctx, a: u32, d: u32) {
+    let b = a.wrapping_add(d);
+    let got = ops_observed(Serial::from(a), Serial::from(b), a, b);
+    let want = ops_expected(d);
+    if got != want {
+        report_ops(ctx, a, b, d, got, want);
+    }
+}
+
+#[cold]
+fn report_ops(ctx: &mut Ctx, a: u32, b: u32, d: u32, got: u32, want: u32) {
+    for (i, name) in OP_NAMES.iter().enumerate() {
+        let g = got >> i & 1 == 1;
+        let w = want >> i & 1 == 1;
+        if g != w {
+            let (l, r) = if name.contains("reversed") { (b, a) } else { (a, b) };
+            ctx.violation(
+                &format!("C16:op:{}:{}", name, region(d)),
+                &format!(
+                    "operator {name} on ({l:#x}, {r:#x}) gave {g}, the table says {w} (second operand of the pair is {d:#x} ahead of the first mod 2^32)"
+                ),
+                json!({"a": a, "b": b, "d": d, "operator": name, "left": l, "right": r, "observed": g, "expected": w}),
+            );
+        }
+    }
+}
+
+/// The comparisons a user reaches through containers and the other
+/// observables of a value (text, hash), for one pair. Slow: boundary subset.
+fn check_pair_consumers(ctx: &mut Ctx, a: u32, d: u32) {
+    let b = a.wrapping_add(d);
+    let sa = Serial::from(a);
+    let sb = Serial::from(b);
+    let exp = expected(d);
+    let eq = d == 0;
+    let mut bad: Vec<(&'static str, String)> = Vec::new();
+    // Option / slice / tuple delegate to the element's trait methods (which
+    // ones exactly differs between std versions)
+    if (Some(sa) == Some(sb)) != eq || (Some(sa) != Some(sb)) == eq {
+        bad.push(("option-eq", format!("Some({a}) == Some({b}) is not {eq}")));
+    }
+    if Some(sa).partial_cmp(&Some(sb)) != exp {
+        bad.push(("option-partial-cmp", format!("Some({a}).partial_cmp(Some({b})) = {:?}, expected {exp:?}", Some(sa).partial_cmp(&Some(sb)))));
+    }
+    if ([sa] == [sb]) != eq || ([sa][..] != [sb][..]) == eq {
+        bad.push(("slice-eq", format!("[{a}] == [{b}] is not {eq}")));
+    }
+    if [sa][..].partial_cmp(&[sb][..]) != exp {
+        bad.push(("slice-partial-cmp", format!("[{a}].partial_cmp([{b}]) = {:?}, expected {exp:?}", [sa][..].partial_cmp(&[sb][..]))));
+    }
+    if ([sa][..] < [sb][..]) != (exp == Some(Ordering::Less)) || ([sa][..] >= [sb][..]) != matches!(exp, Some(Ordering::Greater | Ordering::Equal)) {
+        bad.push(("slice-order", format!("[{a}] < / >= [{b}] disagree with the table")));
+    }
+    if ((sa, 7u8) == (sb, 7u8)) != eq || ((sa, 7u8) != (sb, 7u8)) == eq {
+        bad.push(("tuple-eq", format!("({a}, 7) == ({b}, 7) is not {eq}")));
+    }
+    if ((sa, 7u8) < (sb, 7u8)) != (exp == Some(Ordering::Less))
+        || ((sa, 7u8) <= (sb, 7u8)) != matches!(exp, Some(Ordering::Less | Ordering::Equal))
+        || ((sa, 7u8) > (sb, 7u8)) != (exp == Some(Ordering::Greater))
+        || ((sa, 7u8) >= (sb, 7u8)) != matches!(exp, Some(Ordering::Greater | Ordering::Equal))
+    {
+        bad.push(("tuple-order", format!("({a}, 7) < / <= / > / >= ({b}, 7) disagree with the table")));
+    }
+    // through references
+    if (&sa == &sb) != eq || (&sa < &sb) != (exp == Some(Ordering::Less)) || (&sa >= &sb) != matches!(exp, Some(Ordering::Greater | Ordering::Equal)) {
+        bad.push(("by-reference", format!("&{a} == / < / >= &{b} disagree with the table")));
+    }
+    // other observables of a value: equal serials cannot be told apart,
+    // different ones are not shown as the same
+    let (ta, tb) = (format!("{sa}"), format!("{sb}"));
+    if (ta == tb) != eq {
+        bad.push(("display-vs-eq", format!("Display gives {ta:?} and {tb:?} for serials whose equality is {eq}")));
+    }
+    let (ta, tb) = (format!("{sa:?}"), format!("{sb:?}"));
+    if (ta == tb) != eq {
+        bad.push(("debug-vs-eq", format!("Debug gives {ta:?} and {tb:?} for serials whose equality is {eq}")));
+    }
+    if eq && (hash2_of(&sa) != hash2_of(&sb) || hash_of(sa) != hash_of(sb)) {
+        bad.push(("hash-vs-eq", format!("equal serials {a} hash differently")));
+    }
+    for (what, msg) in bad {
+        ctx.violation(&format!("C16:consumer:{}:{}", what, region(d)), &msg, json!({"a": a, "b": b, "d": d}));
+    }
+}
+
+/// Number of comparisons `check_pair_consumers` makes.
+const CONSUMER_EVALS: u64 = 12;
+
+/// Every way to obtain a `Serial` with the value `a` gives the same serial,
+/// and every way back to an integer gives `a`.
+fn check_value(ctx: &mut Ctx, a: u32) -> u64 {
+    let s = Serial::from(a);
+    let mut bad: Vec<(String, String)> = Vec::new();
+    let into: Serial = a.into();
+    let lit = Serial(a);
+    #[allow(clippy::clone_on_copy)]
+    let cl = s.clone();
+    let mut made: Vec<(&'static str, Serial)> = vec![("into-serial", into), ("tuple-struct-literal", lit), ("clone", cl), ("from-be-of-to-be", Serial::from_be(s.to_be()))];
+    made.push(("from-be-of-be-octets", Serial::from_be(u32::from_ne_bytes(a.to_be_bytes()))));
+    made.push(("state-from-parts", State::from_parts(0xA55A, s).serial()));
+    made.push(("state-new-with-serial", State::new_with_serial(s).serial()));
+    made.push(("add-zero", s.add(0)));
+    made.push(("predecessor-add-one", Serial::from(a.wrapping_sub(1)).add(1)));
+    made.push(("add-largest-increment", Serial::from(a.wrapping_sub(0x7FFF_FFFF)).add(0x7FFF_FFFF)));
+    match Serial::from_str(&a.to_string()) {
+        Ok(v) => made.push(("from-str-decimal", v)),
+        Err(_) => ctx.obs("from_str_refused_decimal_u32", 1),
+    }
+    match format!("{s}").parse::<Serial>() {
+        Ok(v) => made.push(("from-str-of-display", v)),
+        Err(_) => ctx.obs("display_text_not_parsed_back", 1),
+    }
+    if format!("{s}") == a.to_string() {
+        ctx.obs("display_is_decimal_u32", 1);
+    }
+    let n = made.len() as u64;
+    for (how, v) in made {
+        let back: u32 = v.into();
+        if back != a || v.0 != a || u32::from(v) != a {
+            bad.push((format!("{how}:value"), format!("{how} of {a:#x} holds {back:#x}")));
+        } else if v != s || !(v == s) || v != a || !(v == a) || v.partial_cmp(&s) != Some(Ordering::Equal) || s.partial_cmp(&v) != Some(Ordering::Equal) {
+            bad.push((format!("{how}:not-equal-to-the-same-value"), format!("{how} of {a:#x} does not compare equal to Serial::from({a:#x})")));
+        } else if hash2_of(&v) != hash2_of(&s) {
+            bad.push((format!("{how}:hash-vs-eq"), format!("{how} of {a:#x} hashes differently from Serial::from({a:#x})")));
+        }
+    }
+    for (what, msg) in bad {
+        ctx.violation(&format!("C16:conversion:{}", what), &msg, json!({"value": a}));
+    }
+    n
+}
+
 fn check_add(a: u32, n: u32) -> Option<(&'static str, String)> {
     let sa = Serial::from(a);
     let r = sa.add(n);
@@ -121,6 +350,9 @@ fn report(ctx: &mut Ctx, what: &str, msg: String, a: u32, x: u32) {
 
 pub fn run(ctx: &mut Ctx) {
     let mut evals: u64 = 0;
+    let mut op_rows: u64 = 0;
+    let mut op_rows_half: u64 = 0;
+    let mut consumer_rows: u64 = 0;
     // ---- comparison table
     let full = ctx.tier == Tier::Thorough && ctx.stage == Stage::Native;
     let mut ds: Vec<(u32, u32)> = Vec::new(); // inclusive ranges of d for this shard
@@ -152,7 +384,12 @@ pub fn run(ctx: &mut Ctx) {
                 if let Some((what, msg)) = check_pair(a, d) {
                     report(ctx, what, msg, a, d);
                 }
+                check_ops(ctx, a, d);
                 evals += 1;
+                op_rows += 1;
+                if d == 0x8000_0000 {
+                    op_rows_half += 1;
+                }
                 if d == hi {
                     break;
                 }
@@ -171,6 +408,89 @@ pub fn run(ctx: &mut Ctx) {
             }
         }
     }
+    // ---- the same table through containers, references, text and hash, and
+    // the whole operator set from bases that are not in the list: whatever
+    // `Default`, `State::new` and `Arbitrary` hand out
+    if ctx.shard == 0 {
+        let w: u32 = if ctx.stage == Stage::Miri { 2 } else { 48 };
+        let mut more: Vec<u32> = vec![u32::from(Serial::default()), u32::from(State::new().serial()), u32::from(State::default().serial())];
+        ctx.obs("default_serial_is_zero", (more[0] == 0) as u64);
+        {
+            use arbitrary::{Arbitrary, Unstructured};
+            let mut rng = ctx.rng("arbitrary");
+            let n = if ctx.stage == Stage::Miri { 4 } else { 64 };
+            for i in 0..n {
+                let bytes = match i {
+                    0 => vec![],
+                    1 => vec![0xFF; 3],
+                    2 => vec![0xFF; 8],
+                    3 => vec![0, 0, 0, 0x80, 0, 0],
+                    _ => rng.bytes(6),
+                };
+                if let Ok(v) = Serial::arbitrary(&mut Unstructured::new(&bytes)) {
+                    more.push(u32::from(v));
+                    ctx.obs("arbitrary_serials", 1);
+                }
+                if let Ok(st) = State::arbitrary(&mut Unstructured::new(&bytes)) {
+                    more.push(u32::from(st.serial()));
+                }
+            }
+        }
+        for &a in &more {
+            evals += check_value(ctx, a);
+        }
+        more.truncate(if ctx.stage == Stage::Miri { 3 } else { 12 });
+        let bases: Vec<u32> = BASES.iter().copied().chain(more).collect();
+        for &a in &bases {
+            for centre in [0u32, 0x8000_0000] {
+                let mut d = centre.wrapping_sub(w);
+                for _ in 0..=2 * w {
+                    check_ops(ctx, a, d);
+                    check_pair_consumers(ctx, a, d);
+                    if let Some((what, msg)) = check_pair(a, d) {
+                        report(ctx, what, msg, a, d);
+                    }
+                    evals += CONSUMER_EVALS + 1;
+                    op_rows += 1;
+                    consumer_rows += 1;
+                    if d == 0x8000_0000 {
+                        op_rows_half += 1;
+                    }
+                    d = d.wrapping_add(1);
+                }
+            }
+        }
+        ctx.sig("consumers: option / slice / tuple / reference / text / hash around d=0");
+        ctx.sig("consumers: option / slice / tuple / reference / text / hash around d=2^31");
+        ctx.sig("bases from Default / State::new / Arbitrary");
+    }
+    // ---- the distinguished differences from many bases: the table depends on
+    // the difference only, so 0, +-1 and 2^31, 2^31 +- 1 must read the same
+    // wherever the pair sits
+    {
+        let mut rng = ctx.rng("distinguished");
+        let n = ctx.stage_budget((400_000, 40_000_000), 100_000, 40, 0);
+        for i in 0..n {
+            let a = match i % 4 {
+                0 => rng.next_u32(),
+                1 => 0x8000_0000u32.wrapping_add(rng.next_u32() & 0x1FFFF).wrapping_sub(0x1_0000),
+                2 => (rng.next_u32() & 0x1FFFF).wrapping_sub(0x1_0000),
+                _ => rng.next_u32() & 0xFFFF_0000,
+            };
+            for d in [0x8000_0000u32, 0x7FFF_FFFF, 0x8000_0001, 0, 1, 0xFFFF_FFFF] {
+                if let Some((what, msg)) = check_pair(a, d) {
+                    report(ctx, what, msg, a, d);
+                }
+                check_ops(ctx, a, d);
+            }
+            evals += 6;
+            op_rows += 6;
+            op_rows_half += 1;
+        }
+        ctx.sig("cmp many-bases d=2^31");
+        ctx.sig("cmp many-bases d=2^31+-1");
+        ctx.sig("cmp many-bases d=0,+-1");
+    }
     // prime stride through the whole difference space (sampled, not exhaustive)
     if !full {
         let mut rng = ctx.rng("stride");
@@ -181,6 +501,13 @@ pub fn run(ctx: &mut Ctx) {
             let a = if i % 3 == 0 { rng.next_u32() } else { BASES[(i % 8) as usize] };
             if let Some((what, msg)) = check_pair(a, d) {
                 report(ctx, what, msg, a, d);
+            }
+            check_ops(ctx, a, d);
+            op_rows += 1;
+            if i < 2048 && ctx.stage != Stage::Miri {
+                check_pair_consumers(ctx, a, d);
+                evals += CONSUMER_EVALS;
+                consumer_rows += 1;
             }
             evals += 1;
             if i < 64 {
@@ -383,6 +710,49 @@ pub fn run(ctx: &mut Ctx) {
         ctx.sig("pdu wire: serial notify / serial query / end of data v0,v1,v2 boundary");
         ctx.sig("pdu wire: random serials");
     }
+    // ---- every way of making a serial from an integer and back
+    {
+        let mut rng = ctx.rng("conversion");
+        let mut vals: Vec<u32> = BASES.to_vec();
+        vals.extend_from_slice(&[2, 0xFF, 0x100, 0xFFFF, 0x1_0000, 0x00FF_FFFF, 0x0100_0000, 0x7FFF_FFFE, 0x8000_0002, 0x0102_0304, 0x8040_2010, 0xFF00_00FF, 3_000_000_012]);
+        for _ in 0..ctx.stage_budget((20_000, 2_000_000), 4_000, 6, 0) {
+            vals.push(rng.next_u32());
+        }
+        if ctx.stage == Stage::Miri {
+            vals.truncate(12);
+        }
+        for &a in &vals {
+            evals += check_value(ctx, a);
+        }
+        ctx.obs("conversion_values", vals.len() as u64);
+        ctx.sig("conversion: From / Into / literal / clone / from_be / State / add / text, boundary values");
+        ctx.sig("conversion: random values");
+        // State::inc several times in a row, across the wrap: every step is
+        // strictly greater than all earlier ones
+        for &a in vals.iter().take(64) {
+            let mut st = State::from_parts(0x0F0F, Serial::from(a));
+            let mut seen: Vec<Serial> = vec![st.serial()];
+            for k in 1..=5u32 {
+                st.inc();
+                let now = st.serial();
+                evals += 1;
+                let want = a.wrapping_add(k);
+                if u32::from(now) != want || st.session() != 0x0F0F {
+                    report(ctx, "state-inc", format!("State::inc applied {k} times to serial {a:#x} gave {:#x}, expected {want:#x}", u32::from(now)), a, k);
+                } else if seen.iter().any(|old| !(now > *old) || !(*old < now) || now == *old || now <= *old) {
+                    report(ctx, "state-inc-not-greater", format!("serial {want:#x} reached by {k} increments from {a:#x} is not strictly greater than every earlier one"), a, k);
+                }
+                seen.push(now);
+            }
+        }
+        ctx.sig("state inc: five steps in a row incl. across 0xFFFFFFFF and 0x7FFFFFFF");
+    }
+    ctx.obs("operator_rows", op_rows);
+    ctx.obs("operator_rows_at_distance_2^31", op_rows_half);
+    ctx.obs("operator_results_compared", op_rows * OP_NAMES.len() as u64);
+    ctx.obs("consumer_rows", consumer_rows);
+    // ---- serial numbers on a transport that delivers in pieces
+    evals += wire::run(ctx);
     ctx.evals(evals);
     ctx.sample("comparison", || json!({"a": 0xFFFF_FFFEu32, "d": 3, "b": 1, "expected": "Less", "observed": format!("{:?}", Serial::from(0xFFFF_FFFE).partial_cmp(&Serial::from(1)))}));
     ctx.sample("undefined", || json!({"a": 1, "d": 0x8000_0000u32, "expected": "None", "observed": format!("{:?}", Serial::from(1).partial_cmp(&Serial::from(0x8000_0001)))}));
